@@ -47,3 +47,9 @@ Proof.
   cbv zeta. split; [reflexivity|]. split; [reflexivity|]. eexists. split; [reflexivity|]. split; [|split; reflexivity].
   unfold accepts. repeat split.
 Qed.
+
+(* the extracted checker (an independent reference reassembler built from accepts / payload_of) accepts the model's observation of
+   every history of well-formed frames *)
+Require Import RP.Glue.Wire RP.Glue.StreamPacket RP.Lemmas.GlueLemmas.
+Theorem C07_checker_accepts_model : forall case f0 fs, parse_frames case = Some (f0 :: fs, []) -> ok_C07 case (run_BLD case) = [].
+Proof. exact ok_C07_accepts_model. Qed.
